@@ -23,25 +23,25 @@ pub mod server {
     use super::*;
     pub struct ServerError { pub x: u8 }
 //!type src/core/server.rs LogFilterInput
-pub(crate) struct LogFilterInput {
-    pub(crate) commands: HashSet<String>,
-    pub(crate) targets: HashSet<String>,
-    pub(crate) include_stdout: bool,
-    pub(crate) include_stderr: bool,
+pub struct LogFilterInput {
+    pub commands: HashSet<String>,
+    pub targets: HashSet<String>,
+    pub include_stdout: bool,
+    pub include_stderr: bool,
 }
 //!end
 //!type src/core/server.rs LogServerConfig
-pub(crate) struct LogServerConfig {
-    pub(crate) host: String,
-    pub(crate) port: usize,
-    pub(crate) bind_timeout_ms: u64,
+pub struct LogServerConfig {
+    pub host: String,
+    pub port: usize,
+    pub bind_timeout_ms: u64,
 }
 //!end
 //!type src/core/server.rs LockServerConfig
-pub(crate) struct LockServerConfig {
-    pub(crate) host: String,
-    pub(crate) port: usize,
-    pub(crate) bind_timeout_ms: u64,
+pub struct LockServerConfig {
+    pub host: String,
+    pub port: usize,
+    pub bind_timeout_ms: u64,
 }
 //!end
 }
@@ -118,8 +118,8 @@ pub enum ChangeProviderKind {
 }
 //!end
 //!type src/core/mod.rs ChangeProvider
-pub(crate) struct ChangeProvider {
-    pub(crate) r#use: ChangeProviderKind,
+pub struct ChangeProvider {
+    pub r#use: ChangeProviderKind,
 }
 //!end
 //!type src/core/mod.rs AlgorithmKind
@@ -128,59 +128,59 @@ pub enum AlgorithmKind {
 }
 //!end
 //!type src/core/mod.rs ConfigSource
-pub(crate) struct ConfigSource {
-    pub(crate) path: String,
-    pub(crate) algorithm: Option<AlgorithmKind>,
-    pub(crate) checksum: Option<String>,
+pub struct ConfigSource {
+    pub path: String,
+    pub algorithm: Option<AlgorithmKind>,
+    pub checksum: Option<String>,
 }
 //!end
 //!type src/core/mod.rs ServerConfig
-pub(crate) struct ServerConfig {
-    pub(crate) log: server::LogServerConfig,
-    pub(crate) lock: server::LockServerConfig,
+pub struct ServerConfig {
+    pub log: server::LogServerConfig,
+    pub lock: server::LockServerConfig,
 }
 //!end
 //!type src/core/mod.rs FileDefinition
-pub(crate) struct FileDefinition {
-    pub(crate) path: String,
+pub struct FileDefinition {
+    pub path: String,
 }
 //!end
 //!type src/core/mod.rs TargetCommands
-pub(crate) struct TargetCommands {
-    pub(crate) path: Option<String>,
-    pub(crate) definitions: Option<HashMap<String, FileDefinition>>,
+pub struct TargetCommands {
+    pub path: Option<String>,
+    pub definitions: Option<HashMap<String, FileDefinition>>,
 }
 //!end
 //!type src/core/mod.rs TargetArgMaps
-pub(crate) struct TargetArgMaps {
-    pub(crate) path: Option<String>,
-    pub(crate) definitions: Option<HashMap<String, FileDefinition>>,
+pub struct TargetArgMaps {
+    pub path: Option<String>,
+    pub definitions: Option<HashMap<String, FileDefinition>>,
 }
 //!end
 //!type src/core/mod.rs Target
-pub(crate) struct Target {
-    pub(crate) path: String,
-    pub(crate) uses: Option<Vec<String>>,
-    pub(crate) ignores: Option<Vec<String>>,
-    pub(crate) commands: TargetCommands,
-    pub(crate) argmaps: TargetArgMaps,
+pub struct Target {
+    pub path: String,
+    pub uses: Option<Vec<String>>,
+    pub ignores: Option<Vec<String>>,
+    pub commands: TargetCommands,
+    pub argmaps: TargetArgMaps,
 }
 //!end
 //!type src/core/mod.rs Config
-pub(crate) struct Config {
-    pub(crate) source: Option<ConfigSource>,
-    pub(crate) out_dir: String,
-    pub(crate) max_retained_runs: usize,
-    pub(crate) change_provider: ChangeProvider,
-    pub(crate) targets: Vec<Target>,
-    pub(crate) sequences: Option<HashMap<String, Vec<String>>>,
-    pub(crate) server: ServerConfig,
-    pub(crate) checksum: String,
+pub struct Config {
+    pub source: Option<ConfigSource>,
+    pub out_dir: String,
+    pub max_retained_runs: usize,
+    pub change_provider: ChangeProvider,
+    pub targets: Vec<Target>,
+    pub sequences: Option<HashMap<String, Vec<String>>>,
+    pub server: ServerConfig,
+    pub checksum: String,
 }
 //!end
 //!type src/core/mod.rs ConfigLockfile
-pub(crate) struct ConfigLockfile {
-    pub(crate) checksum: String,
+pub struct ConfigLockfile {
+    pub checksum: String,
 }
 //!end
 
@@ -200,6 +200,7 @@ pub struct World {
     pub ghost cur_c: int, pub ghost cur_g: int,
     pub ghost grp_begin: int, pub ghost sched_end: int,
     pub ghost fail_point: int,
+    pub ghost bad_joins: nat,                    // joined tasks whose outcome is a failure (non-zero exit, task error)
     // file system as seen by `run` (unit tracking): path -> content; every effect is a crash point
     pub ghost fs: Map<Seq<char>, Seq<u8>>,
     pub ghost ptr: Seq<char>,          // path of <out>/tracking/run.json
@@ -231,14 +232,49 @@ pub mod sync { pub use std::sync::Arc; }
 pub mod tokio_util { pub mod sync {
     use vstd::prelude::*;
     pub struct CancellationToken { pub x: u8 }
-    impl CancellationToken { #[verifier::external_body] pub async fn cancelled(&self) { unimplemented!() } }
+    impl CancellationToken {
+        #[verifier::external_body] pub fn new() -> CancellationToken { unimplemented!() }
+        #[verifier::external_body] pub async fn cancelled(&self) { unimplemented!() }
+        #[verifier::external_body] pub fn cancel(&self) { unimplemented!() }
+    }
 } }
+// what a joined task reports: its index in the group, and whether its outcome counts as a failure
+pub trait TaskOut { spec fn tid(&self) -> int; spec fn bad(&self) -> bool; }
 // what one message does to the compressor's encoders (defined by the unit that owns the message type)
 pub trait ChanMsg { spec fn apply(&self, chan: int, sink: Map<(int, int), Seq<u8>>) -> Map<(int, int), Seq<u8>>; }
 pub mod tokio {
     use vstd::prelude::*;
     use super::*;
-    pub mod task { pub struct JoinError { pub x: u8 } }
+    pub mod task {
+        use vstd::prelude::*;
+        use super::super::*;
+        pub struct Id { pub ghost i: int }
+        pub struct JoinError { pub ghost i: int, pub x: u8 }
+        impl JoinError {
+            #[verifier::external_body] pub fn is_cancelled(&self) -> bool { unimplemented!() }
+            #[verifier::external_body] pub fn id(&self) -> (r: Id) ensures r.i == self.i { unimplemented!() }
+        }
+        pub struct AbortHandle { pub ghost i: int }
+        impl AbortHandle { #[verifier::external_body] pub fn id(&self) -> (r: Id) ensures r.i == self.i { unimplemented!() } }
+        // a set of spawned tasks; `pending` are the task indices spawned and not yet joined, `ids` maps tokio ids to them
+        pub struct JoinSet<T> { pub ghost pending: Set<int>, pub ghost ids: Map<int, int>, pub _t: ::std::marker::PhantomData<T> }
+        impl<T: TaskOut> JoinSet<T> {
+            #[verifier::external_body] pub fn new() -> (r: Self) ensures r.pending == Set::<int>::empty(), r.ids == Map::<int, int>::empty() { unimplemented!() }
+            // a task is returned only after its future completed (its process exited and its readers finished); None iff empty
+            #[verifier::external_body] pub async fn join_next(&mut self, Tracked(w): Tracked<&mut World>) -> (r: Option<Result<T, JoinError>>)
+                ensures
+                    final(w).cur_c == old(w).cur_c, final(w).cur_g == old(w).cur_g, final(w).fail_point == old(w).fail_point,
+                    final(w).grp_begin == old(w).grp_begin, final(w).sched_end == old(w).sched_end, final(self).ids == old(self).ids,
+                    match r {
+                        None => old(self).pending == Set::<int>::empty() && final(self).pending == old(self).pending && final(w).trace == old(w).trace && final(w).bad_joins == old(w).bad_joins,
+                        Some(res) => exists|t: int| #![trigger old(self).pending.contains(t)] old(self).pending.contains(t) && final(self).pending == old(self).pending.remove(t)
+                            && final(w).trace == old(w).trace.push(Ev::Exit { c: old(w).cur_c, g: old(w).cur_g, t })
+                            && (res matches Ok(v) ==> v.tid() == t && final(w).bad_joins == old(w).bad_joins + (if v.bad() { 1nat } else { 0nat }))
+                            && (res matches Err(e) ==> old(self).ids.dom().contains(e.i) && old(self).ids[e.i] == t && final(w).bad_joins == old(w).bad_joins),
+                    }
+            { unimplemented!() }
+        }
+    }
     pub mod time {
         use vstd::prelude::*;
         pub struct Duration { pub x: u8 }
